@@ -231,6 +231,29 @@ Definition is_some {A} (o : option A) : bool := match o with Some _ => true | No
 (* commit ts of the newest record of any kind (the conflict ts a forced lock reports) *)
 Definition head_commit (ws : list write) : ts := match ws with w :: _ => w_commit w | [] => 0 end.
 
+(* ------------------------------------------------------------------ the resolver's status cache *)
+(* TxnStatus.IsStatusDetermined = StatusCacheable (txnkv/txnlock/lock_resolver.go): a CheckTxnStatus answer may be
+   memoised only when it is final - committed (commit ts > 0), or rolled back: ttl = 0, commit ts = 0 and the action is
+   NoAction / LockNotExistRollback / TTLExpireRollback. LockNotExistDoNothing, TTLExpirePessimisticRollback and
+   MinCommitTSPushed answers are not final. *)
+Inductive det := DCommitted (c : ts) | DRolledBack.
+Definition rollback_action (a : action) : bool :=
+  match a with ANoAction | ALockNotExistRollback | ATTLExpireRollback => true | _ => false end.
+Definition determined3 (ttl commit : N) (a : action) : option det :=
+  if 0 <? commit then Some (DCommitted commit)
+  else if (ttl =? 0) && rollback_action a then Some DRolledBack else None.
+Definition determined (r : resp) : option det :=
+  match r with RStatus ttl c a => determined3 ttl c a | _ => None end.
+(* the store holds the record that makes the status final: the commit record with that commit ts / the rollback record *)
+Definition krec (ws : list write) (s : ts) (d : det) : bool :=
+  existsb (fun w => (w_start w =? s) && match d with
+                                        | DCommitted c => negb (is_rollback w) && (w_commit w =? c)
+                                        | DRolledBack => is_rollback w
+                                        end) ws.
+Definition record_is (st : store) (k : key) (s : ts) (d : det) : bool := krec (writes_of st k) s d.
+Definition is_cts_for (k : key) (s : ts) (c : cmd) : bool :=
+  match c with CheckTxnStatus k' s' _ _ _ _ => (k' =? k) && (s' =? s) | _ => false end.
+
 (* ------------------------------------------------------------------ external consistency: event order *)
 Inductive ev :=
 | EvTso (t : ts)                   (* the oracle issued t *)
